@@ -474,7 +474,8 @@ def run(facts, rep, tier):
             rep.add(Finding("R15.3", "%s : letter %s not handled" % (sb.name, ch), "-o letter %r has no sort" % ch, sb.loc()))
             continue
         sorts = [(bd, t) for bd, t in arms[ch][0] if t["callee"].get("name") in STABLE_SORTS | UNSTABLE_SORTS]
-        revs = [t for bd, t in arms[ch][0] if t["callee"].get("name") == "reverse"]
+        revs = [t for bd, t in arms[ch][0] if t["callee"].get("name") == "reverse" and "slice" in (t["callee"].get("path") or "")]
+        # (`Ordering::reverse` inside a comparator is also called `reverse`: it is part of the comparator, classified there)
         if len(sorts) != 1:
             rep.oblige(False, ("letter", ch))
             rep.add(Finding("R15.3", "%s : letter %s has %d sorts" % (sb.name, ch, len(sorts)), "-o letter %r: expected one sort" % ch, sb.loc()))
